@@ -6,10 +6,12 @@ open Aqua Aqua.Json Aqua.Air Aqua.Exec Aqua.Exec.Lens
 
 /-! ## the environment -/
 
-/-- looking a name up in the store, and peeking at the element a fold iterator points at, do not panic
-(the parser rejects a name that is both a scalar and an iterator; an iterator in scope points at an element) -/
+/-- looking a name up in the store does not panic and does not meet a name that is both a visible scalar and a fold
+iterator (`IterableShadowing`, uncatchable — an `unreachable!()` before /repo 66d8bd2), and peeking at the element a
+fold iterator points at does not panic (an iterator in scope points at an element) -/
 def EnvTotal (sc : Scalars) : Prop :=
-  ∀ name, (∀ s, sc.getValue name ≠ .panic s) ∧ (∀ r, sc.getValue name = .ok r → ∀ s, scalarRefValue r ≠ .panic s)
+  ∀ name, ((∀ s, sc.getValue name ≠ .panic s) ∧ sc.getValue name ≠ .error (.uncatchable (.iterableShadowing name))) ∧
+    (∀ r, sc.getValue name = .ok r → ∀ s, scalarRefValue r ≠ .panic s)
 
 /-- the errors a lens application may end in -/
 def IsLensFailure : ExecErr → Prop
@@ -23,13 +25,17 @@ def IsLensFailure : ExecErr → Prop
 def OkOrLensFailure {α} (r : ER α) : Prop := (∃ a, r = .ok a) ∨ (∃ e, r = .error e ∧ IsLensFailure e)
 
 theorem getValue_error (sc : Scalars) (name : String) (e : ExecErr) (h : sc.getValue name = .error e) :
-    e = .catchable (.variableNotFound name) ∨ e = .catchable (.variableWasNotInitializedAfterNew name) := by
+    e = .catchable (.variableNotFound name) ∨ e = .catchable (.variableWasNotInitializedAfterNew name) ∨
+      e = .uncatchable (.iterableShadowing name) := by
   simp only [Scalars.getValue] at h
-  split at h <;> simp_all [catchable]
+  split at h <;> simp_all [catchable, uncatchable]
 
-theorem getValue_error_lens (sc : Scalars) (name : String) (e : ExecErr) (h : sc.getValue name = .error e) :
-    IsLensFailure e := by
-  rcases getValue_error sc name e h with h | h <;> subst h <;> trivial
+theorem getValue_error_lens (sc : Scalars) (name : String) (e : ExecErr) (h : sc.getValue name = .error e)
+    (hc : sc.getValue name ≠ .error (.uncatchable (.iterableShadowing name))) : IsLensFailure e := by
+  rcases getValue_error sc name e h with h' | h' | h' <;> subst h'
+  · trivial
+  · trivial
+  · exact absurd h hc
 
 theorem scalarRefValue_not_error (r : ScalarRef) (e : ExecErr) : scalarRefValue r ≠ .error e := by
   cases r with
@@ -261,10 +267,10 @@ theorem applyAccessor_total (sc : Scalars) (henv : EnvTotal sc) (v : JVal) (a : 
     · rw [h]; exact .inr ⟨e, rfl, he⟩
   | fieldAccessByScalar s =>
     simp only [applyAccessor, Lens.selectByPathFromScalar]
-    obtain ⟨hnp, hpeek⟩ := henv s
+    obtain ⟨⟨hnp, hclash⟩, hpeek⟩ := henv s
     cases hg : sc.getValue s with
     | panic p => exact absurd hg (hnp p)
-    | error e => exact .inr ⟨e, rfl, getValue_error_lens sc s e hg⟩
+    | error e => exact .inr ⟨e, rfl, getValue_error_lens sc s e hg hclash⟩
     | ok ref =>
       simp only [selectByScalar_eq]
       cases hv : scalarRefValue ref with
@@ -381,10 +387,10 @@ theorem splitToIdx_total (sc : Scalars) (henv : EnvTotal sc) (h : ValueAccessor)
   | fieldAccessByName n => exact .inr ⟨_, rfl, trivial⟩
   | fieldAccessByScalar s =>
     simp only [splitToIdx]
-    obtain ⟨hnp, hpeek⟩ := henv s
+    obtain ⟨⟨hnp, hclash⟩, hpeek⟩ := henv s
     cases hg : sc.getValue s with
     | panic p => exact absurd hg (hnp p)
-    | error e => exact .inr ⟨e, rfl, getValue_error_lens sc s e hg⟩
+    | error e => exact .inr ⟨e, rfl, getValue_error_lens sc s e hg hclash⟩
     | ok ref =>
       simp only [tryScalarRefAsIdx_eq]
       cases hv : scalarRefValue ref with
@@ -557,8 +563,8 @@ theorem canonMapKeyOfPrefix_total (sc : Scalars) (henv : EnvTotal sc) (h : Value
   | fieldAccessByScalar s =>
     simp only [canonMapKeyOfPrefix]
     cases hg : sc.getValue s with
-    | panic p => exact absurd hg ((henv s).1 p)
-    | error e => exact .inr ⟨e, rfl, getValue_error_lens sc s e hg⟩
+    | panic p => exact absurd hg ((henv s).1.1 p)
+    | error e => exact .inr ⟨e, rfl, getValue_error_lens sc s e hg (henv s).1.2⟩
     | ok ref =>
       cases htr : tryScalarRefAsStreamMapKey ref with
       | ok k => exact .inl ⟨k, by simp [liftLambda, Res.mapErr, htr]⟩
